@@ -375,6 +375,7 @@ theorem vinv_succ (w : Array RTok) (fuel : Nat) (ih : VInv prog w fuel) : VInv p
           | none => exact ⟨by simp [hsim.pos], hs', hi'⟩
           | raises => exact ⟨rfl, hs', hi'⟩
           | mayRaise => exact ⟨by simp [hsim.pos], ⟨hsim.pos, hsim.invalid, hsim.cache, hsim.fetched, by simp [hsim.fired], rfl, hsim.peeks, hsim.nexts, hsim.va, hsim.vb⟩, CacheInv.of_cache_eq rfl hinv⟩
+          | gate m => exact ⟨by simp [hsim.pos], ⟨hsim.pos, hsim.invalid, hsim.cache, hsim.fetched, by simp [hsim.fired], rfl, hsim.peeks, hsim.nexts, hsim.va, hsim.vb⟩, CacheInv.of_cache_eq rfl hinv⟩
           | viaItem i =>
             simp only []
             split
